@@ -84,14 +84,18 @@ func makeSourceTree(rng *rand.Rand, root string, shape int, big bool) []string {
 		perm := rng.Perm(len(names))
 		for i := 0; i < k; i++ {
 			p := filepath.Join(root, "s", names[perm[i]])
-			mk(p, sizes[rng.Intn(len(sizes))], rng.Intn(4))
+			if i == 0 {
+				mk(p, 513+rng.Intn(5000), 3) // always one file full of bytes the escape tables protect
+			} else {
+				mk(p, sizes[rng.Intn(len(sizes))], rng.Intn(4))
+			}
 			tops = append(tops, p)
 		}
 	case 1:
 		d := filepath.Join(root, "s", "tree")
 		os.MkdirAll(filepath.Join(d, "empty-dir"), 0755)
 		os.MkdirAll(filepath.Join(d, "sub", "deeper", "空"), 0755)
-		mk(filepath.Join(d, "top.txt"), sizes[rng.Intn(len(sizes))], rng.Intn(4))
+		mk(filepath.Join(d, "top.txt"), 513+rng.Intn(5000), 3)
 		mk(filepath.Join(d, "sub", "a.txt"), sizes[rng.Intn(len(sizes))], rng.Intn(4))
 		mk(filepath.Join(d, "sub", "deeper", "z.bin"), sizes[rng.Intn(len(sizes))], rng.Intn(4))
 		mk(filepath.Join(d, "sub", "deeper", "zero"), 0, 0)
@@ -105,7 +109,7 @@ func makeSourceTree(rng *rand.Rand, root string, shape int, big bool) []string {
 		// same base name twice, from different directories
 		p1 := filepath.Join(root, "s", "d1", "same.txt")
 		p2 := filepath.Join(root, "s", "d2", "same.txt")
-		mk(p1, sizes[rng.Intn(len(sizes))], rng.Intn(4))
+		mk(p1, 513+rng.Intn(5000), 3)
 		mk(p2, sizes[rng.Intn(len(sizes))], rng.Intn(4))
 		tops = append(tops, p1, p2)
 	}
@@ -187,14 +191,17 @@ func genFidelity(c *ctx) {
 	spinning := 0
 	for i := range cases {
 		fc := &fidCase{seed: c.rng.Int63(), shape: c.rng.Intn(3), big: c.rng.Intn(4) == 0}
+		// stratified: every (direction, base64/binary, protocol) combination occurs in every
+		// block of 24 cases; the remaining dimensions are drawn at random
+		combo := i % 24
 		fc.cfg = e2eCfg{
-			upload:    i%2 == 0,
-			binary:    c.rng.Intn(2) == 0,
+			upload:    combo%2 == 0,
+			binary:    (combo/2)%2 == 0,
+			proto:     protos[(combo/4)%len(protos)],
 			escape:    c.rng.Intn(3) == 0,
 			overwrite: c.rng.Intn(3) == 0,
 			compress:  []string{"", "yes", "no", "auto"}[c.rng.Intn(4)],
 			bufsize:   []string{"", "1k", "4k", "1M"}[c.rng.Intn(4)],
-			proto:     protos[c.rng.Intn(len(protos))],
 			timeout:   10,
 			quiet:     c.rng.Intn(2) == 0,
 			deadline:  40 * time.Second,
@@ -229,6 +236,23 @@ func genFidelity(c *ctx) {
 		dest := filepath.Join(root, "dest")
 		os.MkdirAll(dest, 0755)
 		fc.tops = makeSourceTree(rng, root, fc.shape, fc.big)
+		if fc.cfg.overwrite && fc.shape == 0 {
+			// overwrite onto a destination that already holds part of one source (resume path):
+			// a file whose remaining part is >= 128 KiB, destination = a prefix of it
+			p := filepath.Join(root, "s", "resume.bin")
+			content := fillBytes(rng, 300000+rng.Intn(100000), rng.Intn(3))
+			os.WriteFile(p, content, 0644)
+			fc.tops = append(fc.tops, p)
+			keep := []int{0, 1, 65536, 100000, len(content), len(content) - 1}[rng.Intn(6)]
+			pre := append([]byte(nil), content[:keep]...)
+			if rng.Intn(3) == 0 && keep > 10 {
+				pre[keep/2] ^= 0x55 // diverging inside the kept part
+			}
+			if rng.Intn(4) == 0 {
+				pre = append(pre, fillBytes(rng, 5000, 0)...) // longer than the source's prefix
+			}
+			os.WriteFile(filepath.Join(dest, "resume.bin"), pre, 0644)
+		}
 		if fc.chunk > 0 {
 			var mu sync.Mutex
 			crng := rand.New(rand.NewSource(fc.seed + 1))
